@@ -157,3 +157,37 @@ def sublists_in_every_order(n):
     for k in range(1, n + 1):
         out += [list(p) for p in itertools.permutations(range(n), k)]
     return out
+
+
+# ------------------------------------------------------------------------------------------------ cvxpy inputs
+def held_values(N, M, kind, which):
+    """Two unrelated arrays a Variable of the given kind can hold (integer-valued: all sums exact)."""
+    idx = np.arange(N * M, dtype=np.int64).reshape(N, M)
+    if which == 0:
+        re, im = idx + 1.0, ((idx * 7919 + 13) % 10007).astype(float)
+    else:
+        re, im = ((idx * 31 + 7) % 1009).astype(float) - 500.0, ((idx * 17 + 3) % 211).astype(float) - 100.0
+    if kind == "real":
+        return re
+    if kind == "complex":
+        return re + 1j * im
+    if kind == "hermitian":
+        z = re + 1j * im
+        return z + z.conj().T
+    if kind == "symmetric":
+        return re + re.T
+    raise KeyError(kind)
+
+
+def make_variable(N, M, kind):
+    import cvxpy
+
+    if kind == "real":
+        return cvxpy.Variable((N, M))
+    if kind == "complex":
+        return cvxpy.Variable((N, M), complex=True)
+    if kind == "hermitian":
+        return cvxpy.Variable((N, N), hermitian=True)
+    if kind == "symmetric":
+        return cvxpy.Variable((N, N), symmetric=True)
+    raise KeyError(kind)
